@@ -13,11 +13,6 @@ From Coq Require String.
 Open Scope string_scope.
 Open Scope Z_scope.
 
-(* the attribute names a module holding clones of the unit's ports has *)
-Definition unit_names (u : unit) : list name := map fst (u_sigs u) ++ map fst (u_buns u).
-
-Definition mem (s : name) (l : list name) : bool := existsb (String.eqb s) l.
-
 (* generators.py:_unused_name — `while name in m.namespace: name += "_"`; fuel = 1 + longest name *)
 Fixpoint unused_name (fuel : nat) (names : list name) (c : name) : result name :=
   if mem c names then
@@ -26,6 +21,21 @@ Fixpoint unused_name (fuel : nat) (names : list name) (c : name) : result name :
 
 Definition maxlen (l : list name) : nat := fold_right (fun s m => Nat.max (String.length s) m) 0%nat l.
 Definition name_fuel (names : list name) : nat := S (maxlen names).
+
+(* the names _unused_name may try *)
+Fixpoint cands (fuel : nat) (c : name) : list name :=
+  c :: match fuel with O => [] | S f => cands f (sapp c "_") end.
+
+Fixpoint nodup_names (l : list name) : bool :=
+  match l with [] => true | x :: t => negb (mem x t) && nodup_names t end.
+
+(* a unit the theorems (and the harness) range over: positive widths, at least one port, distinct leaf-level
+   port names, distinct attribute names, and no flattened bundle member carries a name the generator may
+   invent for its internal bus unless the unit's own attributes already block that name *)
+Definition wf_unit (u : unit) : bool :=
+  forallb (fun pw => 1 <=? snd pw) (unit_io u) && nodup_names (map fst (unit_io u)) && nodup_names (unit_names u)
+  && negb (Nat.eqb (List.length (unit_io u)) 0)
+  && forallb (fun c => mem c (unit_names u) || negb (mem c (map fst (unit_io u)))) (cands (name_fuel (unit_names u)) "i").
 
 Fixpoint number {A} (l : list A) (k : N) : list (N * A) :=
   match l with [] => [] | x :: t => (k, x) :: number t (k + 1)%N end.
